@@ -227,6 +227,8 @@ int is_static(const char *, object_t *);
 int get_error_state (int mask);
 void set_error_state (int flag);
 void clear_error_state ();
+int get_delivered_error_state (int mask);
+void note_delivered_error_state (void);
 
 void reset_interpreter (void);
 
